@@ -344,8 +344,8 @@ static cfg_opt_t *cfg_getopt_secidx(cfg_t *cfg, const char *name,
 	if (!index) {
 		opt = cfg_getopt_leaf(sec, name);
 
-		/* a new key in a free-form section is not an error either */
-		if (!opt && !is_set(CFGF_IGNORE_UNKNOWN, cfg->flags) && !is_set(CFGF_KEYSTRVAL, sec->flags))
+		/* a new key of the free-form section being looked at is not an error either */
+		if (!opt && !is_set(CFGF_IGNORE_UNKNOWN, cfg->flags) && !is_set(CFGF_KEYSTRVAL, cfg->flags))
 			cfg_error(cfg, _("no such option '%s'"), name);
 	}
 
